@@ -296,7 +296,18 @@ class BlockNet(Engine):
         raise RuntimeError('HARNESS: could not grind a nonce')
 
     def _sigop_script(self, n, malformed_tail=False):
-        s = b'\xac' * n
+        """A script worth exactly n legacy signature operations, in one of several compositions: CHECKSIGs only;
+        CHECKMULTISIGs that directly follow OP_1..OP_16 (20 each in the legacy count whatever the OP_n says - the
+        'accurate' count, which is not the block rule, would say n) topped up with CHECKSIGs; the VERIFY forms."""
+        fl = getattr(self, '_sig_flavour', 0)
+        if fl == 1:
+            k = n // 20
+            s = b''.join(bytes([0x51 + (j % 16), 0xae]) for j in range(k)) + b'\xac' * (n - 20 * k)
+        elif fl == 2:
+            k = n // 20
+            s = b'\xad' * (n - 20 * k) + b''.join(bytes([0x52, 0xaf]) for j in range(k))
+        else:
+            s = b'\xac' * n
         if malformed_tail:
             s += b'\x4c\x05\xac\xac'      # PUSHDATA1 announcing 5 bytes with only 2 left: counting stops here
         return s.hex()
@@ -305,6 +316,7 @@ class BlockNet(Engine):
         ctx = self.ctx
         r = a['r']
         txs = blk['txs']
+        self._sig_flavour = (r[3] >> 3) % 3
 
         def some_tx():
             while len(txs) < 2:
@@ -558,6 +570,36 @@ class BlockNet(Engine):
         if a['recheck_after'] is not None:
             self.q.after(a['delay'] + a['recheck_after'], 3, self._check, i, a, validator, blk, payload, obj, do_pow, 1)
 
+    def _pre_use(self, block):
+        """The application has already looked at the block it is about to check - through public methods that
+        leave every value as it is (what they return or raise is not judged here): the check must not be able
+        to tell."""
+        def quiet(fn, *args):
+            try:
+                r = fn(*args)
+                if hasattr(r, '__next__'):
+                    list(r)
+            except Exception:            # noqa: BLE001
+                pass
+        for m in ('GetHash', 'calc_merkle_root', 'GetWeight', 'get_header', 'serialize', '__repr__'):
+            quiet(getattr(block, m, lambda: None))
+        nscripts = 0
+        for tx in getattr(block, 'vtx', ()):
+            for m in ('GetTxid', 'GetHash', 'is_coinbase', 'has_witness', 'calc_weight', '__repr__', '__hash__'):
+                quiet(getattr(tx, m, lambda: None))
+            scripts = [i.scriptSig for i in tx.vin] + [o.scriptPubKey for o in tx.vout]
+            for sc in scripts:
+                nscripts += 1
+                if nscripts > 60 or len(sc) > 30000:
+                    continue            # (bounded: the megabyte scripts of the size rules would take seconds each)
+                quiet(sc.GetSigOpCount, True)
+                if len(sc) > 3000:
+                    continue
+                for m in ('is_p2sh', 'is_push_only', 'has_canonical_pushes', 'is_unspendable', 'is_valid', 'is_witness_scriptpubkey', 'raw_iter', '__iter__', '__repr__',
+                          'to_p2sh_scriptPubKey', 'witness_version'):
+                    quiet(getattr(sc, m, lambda: None))
+        self.ctx.fault('block-objects-used-before-the-check')
+
     def _check(self, i, a, validator, blk, payload, obj, do_pow, nth):
         ctx, C, M = self.ctx, self.C, self.M
         ctx.cur_step = i
@@ -586,6 +628,8 @@ class BlockNet(Engine):
             if a.get('inject_delta'):
                 ctx.fault('injected-time-differs-from-clock')
         want = BR.check_block(spec, now, t['pow_limit'], t['max_money'], do_pow=do_pow)
+        if (a['r'][4] >> 5) % 4 == 0:
+            self._pre_use(block)
         reads0 = self.clock.reads
         try:
             if a['clock'] == 'cur_time':
